@@ -55,6 +55,38 @@ CHECKS = {
              "and each enumerated dataset, on every path the result is at most every starting point and all returned rankings "
              "share a score, for all valid schemes on the path.",
         design="4/C09"),
+    "C05": dict(
+        technique="fork-mode symbolic execution of the real ILP model building/decoding with solver stand-ins returning any "
+                  "optimal solution (z3 all-SAT over the recorded rows, optimum as a forked choice); z3 refutes score(r) > score(w)",
+        text="For the PuLP model, the CPLEX model (optimisations on/off, paper variant) and the selector with the CPLEX API present / "
+             "absent, on every path (arcs of the graph of elements, optimum picked by the stand-in) the returned ranking is proved "
+             "minimal against all rankings with ties for all valid schemes on the path (n<=3 + Condorcet strata, n=4 samples); the "
+             "all-optima mode returns exactly the minimisers; the recorded rows admit exactly the rankings with ties (n<=4).",
+        design="4/C05",
+        note=TB + "; ILP solver stand-in contract: returns an optimal solution of the model it was given (CPLEX is not installed; "
+                  "PuLP+CBC is used in replays)"),
+    "C11": dict(
+        technique="merge-mode bounded symbolic execution of _where_should_it_be (symbolic positions and scheme) + fork-mode "
+                  "execution of KwikSort with the random pivot as a nondeterministic choice (all pivot sequences)",
+        text="The pivot comparison is proved equal to the cheapest-placement rule for all position vectors (m<=3, thorough 4) and all "
+             "valid schemes; end to end, for every enumerated dataset, every pivot sequence and every region of schemes, each element "
+             "sits relative to its step's pivot as the definition says and coherent preferences force the result; a reuse-after-"
+             "in-place-mutation history is included.",
+        design="4/C11"),
+    "C13": dict(
+        technique="merge-mode bounded symbolic execution of _fill_dicts_copeland on a symbolic cost table + fork-mode execution of "
+                  "CopelandMethod with symbolic scheme (sort order decided by forks)",
+        text="Scores and victory/equality/defeat counts equal the definition for any mirror-consistent table (n<=4, thorough 5); end "
+             "to end the ranking is by decreasing definition score, tied iff equal, and the feature dictionaries hold the definition's "
+             "numbers, for all valid schemes on each path.",
+        design="4/C13"),
+    "C19": dict(
+        technique="fork-mode symbolic execution of ScoringScheme's constructor, __mul__, equivalence tests and nickname on fully "
+                  "symbolic penalties (12 / 24 reals, symbolic factor); z3 (linear and non-linear real arithmetic) decides each path",
+        text="Every feasible path of each method is explored with all numbers symbolic; outcome <=> specification is proved per path: "
+             "constructor acceptance/exception, scaling (values, freshness, Kemeny-score homogeneity), proportionality on both vectors, "
+             "nickname; malformed shapes/types are enumerated.",
+        design="4/C19"),
 }
 
 NOT_YET = "check not built yet in this session (see DESIGN.md section 8 for the build order)"
